@@ -1,4 +1,5 @@
 import Guard.Properties.C02
+import Guard.Lemmas.Monad
 /-
   C04 — verdicts do not depend on the order or repetition of clauses and rules.
 
@@ -99,5 +100,34 @@ theorem C04_memo_returns_stored (name : Str) (s : Status) (m : List (Str × Stat
     · simp [alInsert, alLookup, h, ih]
 
 example : evaluatedPrefix [.fail, .pass, .fail] = [.fail, .pass] := rfl
+
+/-- **the evaluator does short-circuit exactly like `evaluatedPrefix`**: the statuses `evalAlternatives` returns for
+    a line never contain a PASS before the last position, i.e. they are the evaluated prefix of themselves — for
+    every line, program, state and fuel.  (With `C04_short_circuit`: the line status does not depend on where the
+    evaluator stopped.) -/
+theorem C04_evaluator_short_circuits (env : Env) : ∀ (l : List Clause) (fuel : Nat) (st st' : St) (sts : List Status),
+    evalAlternatives env fuel l st = .ok (sts, st') → evaluatedPrefix sts = sts ∧ sts.length ≤ l.length
+  | [], fuel, st, st', sts, h => by
+    simp only [evalAlternatives] at h
+    obtain ⟨rfl, _⟩ := M.pure_ok h
+    exact ⟨rfl, Nat.le_refl _⟩
+  | c :: rest, 0, st, st', sts, h => by simp [evalAlternatives, outOfFuel] at h
+  | c :: rest, fuel + 1, st, st', sts, h => by
+    simp only [evalAlternatives] at h
+    obtain ⟨s, s1, h1, h2⟩ := M.bind_ok h
+    by_cases hs : (s == Status.pass) = true
+    · simp only [hs, ↓reduceIte] at h2
+      obtain ⟨rfl, _⟩ := M.pure_ok h2
+      exact ⟨by simp [evaluatedPrefix, hs], by simp⟩
+    · simp only [hs, Bool.false_eq_true, ↓reduceIte] at h2
+      obtain ⟨more, s2, h3, h4⟩ := M.bind_ok h2
+      obtain ⟨rfl, _⟩ := M.pure_ok h4
+      obtain ⟨ih1, ih2⟩ := C04_evaluator_short_circuits env rest fuel s1 s2 more h3
+      refine ⟨?_, by simp; omega⟩
+      have hs' : (s == Status.pass) = false := by
+        cases hh : (s == Status.pass)
+        · rfl
+        · exact absurd hh hs
+      simp [evaluatedPrefix, hs', ih1]
 
 end Guard.C04
